@@ -16,7 +16,7 @@ headers on every run by the harness: `sizes` line).
 namespace RimeModel.C06
 open RimeModel.Arena
 
-def szMetadata : Nat := 72        -- sizeof(table::Metadata)
+def szMetadata : Nat := 68        -- sizeof(table::Metadata): char[32] + 9 four-byte fields
 def szHeadNode : Nat := 12        -- sizeof(table::HeadIndexNode)
 def szTrunkNode : Nat := 16       -- sizeof(table::TrunkIndexNode)
 def szLongEntry : Nat := 16       -- sizeof(table::LongEntry)
@@ -118,11 +118,28 @@ def allocateAll (a : Arena) : List (Nat × Nat) → Arena
   | [] => a
   | (al, sz) :: rest => allocateAll (allocate a al sz).1 rest
 
+/-- no `Allocate` of the list has to grow the file -/
+def NeverGrows (a : Arena) : List (Nat × Nat) → Prop
+  | [] => True
+  | (al, sz) :: rest => (allocate a al sz).1.capacity = a.capacity ∧ NeverGrows (allocate a al sz).1 rest
+
+instance instDecidableNeverGrows : (a : Arena) → (l : List (Nat × Nat)) → Decidable (NeverGrows a l)
+  | _, [] => isTrue trivial
+  | a, (al, sz) :: rest =>
+    match decEq (allocate a al sz).1.capacity a.capacity, instDecidableNeverGrows (allocate a al sz).1 rest with
+    | isTrue h1, isTrue h2 => isTrue ⟨h1, h2⟩
+    | isFalse h1, _ => isFalse (fun h => h1 h.1)
+    | _, isFalse h2 => isFalse (fun h => h2 h.2)
+
 /-- worst-case bytes a request list consumes: size plus up to `alignment - 1` of padding each -/
 def allocCost (l : List (Nat × Nat)) : Nat := (l.map (fun r => r.1 - 1 + r.2)).sum
 
+/-- `size_` after a request list, without the bytes (`allocateAll_size`: it is the arena's size) -/
+def allocEnd (s : Nat) : List (Nat × Nat) → Nat
+  | [] => s
+  | (al, sz) :: rest => allocEnd (alignUp al s + sz) rest
+
 /-- end of the index in the file (= offset of the string table image): what the harness reads off the real table -/
-def indexEnd {W : Type} (t : Tree W) : Nat :=
-  (allocateAll (create (estimatedFileSize t 0)) (buildAllocs t)).size
+def indexEnd {W : Type} (t : Tree W) : Nat := allocEnd 0 (buildAllocs t)
 
 end RimeModel.C06
